@@ -187,6 +187,16 @@ def interp_1d_conservative(phi, theta, target_theta_bins):
 """Mid level functions (xarray)"""
 
 
+def _unused_dim_name(name, *arrays):
+    """Return a dimension name based on `name` that none of `arrays` uses."""
+    used = set()
+    for a in arrays:
+        used.update(a.dims)
+    while name in used:
+        name = "_" + name
+    return name
+
+
 def input_handling(func):
     """Decorator that handles input naming for interpolations."""
 
@@ -199,12 +209,12 @@ def input_handling(func):
         suffix = kwargs.pop("suffix", "")
 
         # rename all input dims to unique names to avoid conflicts in xr.apply_ufunc
-        temp_dim = "temp_dim_target"
+        temp_dim = _unused_dim_name("temp_dim_target", phi, theta, target_theta_levels)
         target_theta_levels = target_theta_levels.rename({target_dim: temp_dim})
 
         # The phi_dim doesnt matter for the final product, so just rename to
         # # something unique to avoid conflicts in apply_ufunc
-        temp_dim2 = "temp_unique"
+        temp_dim2 = _unused_dim_name("temp_unique", phi, theta, target_theta_levels)
         phi = phi.rename({phi_dim: temp_dim2})
 
         # Execute function with temporary names
@@ -246,6 +256,8 @@ def linear_interpolation(
 def conservative_interpolation(
     phi, theta, target_theta_levels, phi_dim, theta_dim, target_dim, **kwargs
 ):
+    # name of the new dimension while it coexists with `target_dim`; must not collide with a dimension in use
+    new_dim = _unused_dim_name("remapped", phi, theta, target_theta_levels)
     out = xr.apply_ufunc(
         interp_1d_conservative,
         phi,
@@ -253,12 +265,12 @@ def conservative_interpolation(
         target_theta_levels,
         kwargs=kwargs,
         input_core_dims=[[phi_dim], [theta_dim], [target_dim]],
-        output_core_dims=[["remapped"]],
+        output_core_dims=[[new_dim]],
         dask="parallelized",
-        dask_gufunc_kwargs={"output_sizes": {"remapped": len(target_theta_levels) - 1}},
+        dask_gufunc_kwargs={"output_sizes": {new_dim: len(target_theta_levels) - 1}},
         # Since we are introducing a new dimension instead of changing it we need to declare the output size.
         output_dtypes=[phi.dtype],
-    ).rename({"remapped": target_dim})
+    ).rename({new_dim: target_dim})
 
     # assign the target cell center
     target_centers = (target_theta_levels.data[1:] + target_theta_levels.data[:-1]) / 2
